@@ -21,7 +21,8 @@ pub fn install_panic_hook() {
         } else {
             "<non-string panic payload>".to_string()
         };
-        PANIC.with(|p| *p.borrow_mut() = Some(format!("{} at {}", msg, loc)));
+        // try_with: the hook may run while the thread's locals are being destroyed
+        let _ = PANIC.try_with(|p| *p.borrow_mut() = Some(format!("{} at {}", msg, loc)));
     }));
 }
 
@@ -29,7 +30,7 @@ pub fn install_panic_hook() {
 pub fn guard<T>(f: impl FnOnce() -> T) -> Result<T, String> {
     match catch_unwind(AssertUnwindSafe(f)) {
         Ok(v) => Ok(v),
-        Err(_) => Err(PANIC.with(|p| p.borrow_mut().take()).unwrap_or_else(|| "panic".into())),
+        Err(_) => Err(PANIC.try_with(|p| p.borrow_mut().take()).ok().flatten().unwrap_or_else(|| "panic".into())),
     }
 }
 
@@ -435,4 +436,162 @@ pub fn enc_case(kind: &str, bytes: &[u8]) -> String {
 pub fn dec_case(case: &str) -> Option<(&str, Vec<u8>)> {
     let (k, h) = case.split_once(':')?;
     Some((k, spec::json::unhex(h)?))
+}
+
+
+// ---------------------------------------------------------------------------------------------
+// calling context: the same calls from an ordinary place and from a thread-local destructor
+
+/// A fixed battery of calls into every part of the public API; each line is (property tag,
+/// operation, rendered outcome). Pure functions: the lines must not depend on where the battery
+/// is called from.
+pub fn context_battery() -> Vec<(&'static str, String, String)> {
+    use ppp::v2::WriteToHeader;
+    use std::fmt::Write as _;
+    let mut out: Vec<(&'static str, String, String)> = Vec::new();
+    let mut push = |tag: &'static str, op: &str, r: Result<String, String>| {
+        out.push((tag, op.to_string(), match r {
+            Ok(s) => s,
+            Err(m) => format!("PANIC: {}", m),
+        }));
+    };
+    let v1_inputs: [&[u8]; 4] = [b"PROXY TCP4 10.1.2.3 10.4.5.6 1024 443\r\nGET /", b"PROXY TCP6 2001:db8::1 ::ffff:1.2.3.4 1 65535\r\n", b"PROXY UNKNOWN anything at all\r\n", b"PROXY TCP4 10.1.2.3 10.4.5"];
+    let mut v2a = spec::v2::SIG.to_vec();
+    v2a.extend_from_slice(&[0x21, 0x11, 0, 19, 10, 1, 2, 3, 10, 4, 5, 6, 4, 0, 1, 187, 0x04, 0, 4, 9, 8, 7, 6]);
+    let mut v2b = spec::v2::SIG.to_vec();
+    v2b.extend_from_slice(&[0x20, 0x00, 0, 0]);
+    let v2_inputs: [&[u8]; 3] = [&v2a, &v2b, &v2a[..20]];
+    for x in v1_inputs.iter().chain(v2_inputs.iter()) {
+        push("C06", &format!("v2::Header::try_from({})", spec::json::show(x, 30)), guard(|| format!("{:?}", v2_parse(x))));
+        push("C06", &format!("v1::Header::try_from({})", spec::json::show(x, 30)), guard(|| format!("{:?}", v1_bytes(x))));
+        push("C06", &format!("HeaderResult::parse({})", spec::json::show(x, 30)), guard(|| format!("{:?}", auto_parse(x))));
+        if let Ok(s) = std::str::from_utf8(x) {
+            push("C16", &format!("str entry points({})", spec::json::show(x, 30)), guard(|| format!("{:?} {:?} {:?}", v1_str(s), v1_fromstr_header(s), v1_fromstr_addr(s))));
+        }
+    }
+    for a in [
+        v1::Addresses::new_tcp4([10, 1, 2, 3], [10, 4, 5, 6], 1024, 443),
+        v1::Addresses::new_tcp6([0x2001, 0xdb8, 0, 0, 0, 0, 0, 1], [0, 0, 0, 0, 0, 0xffff, 0x0102, 0x0304], 1, 65535),
+        v1::Addresses::Unknown,
+    ] {
+        push("C08", &format!("Display {:?}", a), guard(|| {
+            let mut s = a.to_string();
+            let _ = write!(s, "|{:>5}|{}", a, a);
+            s
+        }));
+    }
+    push("C03", "accessors, Debug, to_owned, TLV iteration", guard(|| {
+        let mut s = String::new();
+        if let Ok(h) = v2::Header::try_from(&v2a[..]) {
+            let o = h.to_owned();
+            let _ = write!(s, "{:?}|{}|{:?}|{}", h, h, o.tlvs().collect::<Vec<_>>(), o == h);
+        }
+        if let Ok(h) = v1::Header::try_from(v1_inputs[0]) {
+            let _ = write!(s, "|{:?}|{}|{}|{}", h, h, h.protocol(), h.addresses_str());
+        }
+        s
+    }));
+    push("C10", "Builder with a batch, an explicit length and a TLV", guard(|| {
+        let r = v2::Builder::with_addresses(v2::Version::Two | v2::Command::Proxy, v2::Protocol::Stream, v2::IPv4::new([10, 1, 2, 3], [10, 4, 5, 6], 1024, 443))
+            .write_payloads([1u8, 2, 3].iter())
+            .and_then(|b| b.write_tlv(v2::Type::NoOp, &[9u8, 8][..]))
+            .and_then(|b| b.write_payload(0xBEEFu16))
+            .and_then(|b| b.build());
+        format!("{:?}", r.map_err(|e| e.kind()))
+    }));
+    push("C20", "to_bytes of a TLV, an address block, an integer", guard(|| {
+        format!(
+            "{:?} {:?} {:?}",
+            v2::TypeLengthValue::new(7u8, &[1u8, 2, 3][..]).to_bytes().map_err(|e| e.kind()),
+            v2::Addresses::from(v2::IPv4::new([1, 2, 3, 4], [5, 6, 7, 8], 9, 10)).to_bytes().map_err(|e| e.kind()),
+            0x01020304u32.to_bytes().map_err(|e| e.kind())
+        )
+    }));
+    push("C19", "socket address pairs", guard(|| {
+        let a: std::net::SocketAddr = "10.1.2.3:1024".parse().unwrap();
+        let b: std::net::SocketAddr = "10.4.5.6:443".parse().unwrap();
+        let c: std::net::SocketAddr = "[2001:db8::1]:1".parse().unwrap();
+        format!("{:?} {:?} {:?} {:?}", v1::Addresses::from((a, b)), v2::Addresses::from((a, b)), v1::Addresses::from((c, c)), v2::Addresses::from((a, c)))
+    }));
+    out
+}
+
+struct TeardownGuard {
+    slot: std::sync::Arc<std::sync::Mutex<Option<Vec<(&'static str, String, String)>>>>,
+}
+impl Drop for TeardownGuard {
+    fn drop(&mut self) {
+        // runs while the thread's locals are being destroyed: locals that were created after this
+        // one (those of the crate under test among them) are already gone
+        let r = catch_unwind(AssertUnwindSafe(context_battery));
+        let lines = match r {
+            Ok(l) => l,
+            Err(_) => vec![("C03", "the whole battery".to_string(), "PANIC: unwound out of the battery".to_string())],
+        };
+        if let Ok(mut g) = self.slot.lock() {
+            *g = Some(lines);
+        }
+    }
+}
+thread_local! {
+    static TEARDOWN: RefCell<Option<TeardownGuard>> = const { RefCell::new(None) };
+}
+
+/// Runs the battery on a fresh thread three times: before anything else (ordinary context), a
+/// second time (after the crate may have initialised per-thread state), and from the destructor
+/// of a thread-local that was created before the thread's first call into the crate. Returns the
+/// lines (tag, operation, first outcome, other outcome, context) that differ or panicked.
+pub fn context_differences() -> Vec<(&'static str, String, String, String, &'static str)> {
+    let slot = std::sync::Arc::new(std::sync::Mutex::new(None));
+    let slot2 = slot.clone();
+    let h = std::thread::spawn(move || {
+        TEARDOWN.with(|t| *t.borrow_mut() = Some(TeardownGuard { slot: slot2 }));
+        let first = context_battery();
+        let second = context_battery();
+        (first, second)
+    });
+    let (first, second) = match h.join() {
+        Ok(x) => x,
+        Err(_) => return vec![("C03", "the whole battery".into(), "returned".into(), "PANIC: the battery thread died".into(), "ordinary")],
+    };
+    let third = slot.lock().ok().and_then(|mut g| g.take());
+    let mut bad = Vec::new();
+    for (i, (tag, op, a)) in first.iter().enumerate() {
+        if a.starts_with("PANIC") {
+            bad.push((*tag, op.clone(), "should return".to_string(), a.clone(), "ordinary"));
+        }
+        if let Some((_, _, b)) = second.get(i) {
+            if b != a {
+                bad.push((*tag, op.clone(), a.clone(), b.clone(), "second call on the thread"));
+            }
+        }
+        match third.as_ref().and_then(|t| t.get(i)) {
+            Some((_, _, c)) if c != a => bad.push((*tag, op.clone(), a.clone(), c.clone(), "thread-local destructor at thread exit")),
+            Some(_) => {}
+            None => bad.push((*tag, op.clone(), a.clone(), "the destructor did not run or did not finish".to_string(), "thread-local destructor at thread exit")),
+        }
+    }
+    bad
+}
+
+/// The calling-context check of one monitor: reports the differing lines that carry one of `tags`.
+pub fn judge_context(tags: &[&str], rec: &mut spec::record::Recorder) {
+    let bad = context_differences();
+    rec.case(0xC0DE_C0DE, true);
+    rec.events(60);
+    let mut any = false;
+    for (tag, op, a, b, ctx) in bad {
+        if tags.contains(&tag) || (tags.contains(&"C03") && b.starts_with("PANIC")) {
+            any = true;
+            rec.violation(
+                &format!("calling-context:{}", ctx.split(' ').next().unwrap_or("ctx")),
+                "context:battery".to_string(),
+                format!("context|{}", tag),
+                format!("{}: in an ordinary call the outcome is {}, from the {} it is {}", op, &a[..a.len().min(200)], ctx, &b[..b.len().min(300)]),
+            );
+        }
+    }
+    if !any {
+        rec.class("calling-context|ordinary = second call = thread-local destructor", || format!("{:?}", tags));
+    }
 }
